@@ -1175,6 +1175,29 @@ func lastPathElem(p string) string {
 func (c *ExprCtx) lvalue(x CExpr) (Addr, types.Type, bool) {
 	e := c.e
 	switch x := x.(type) {
+	case CIdent:
+		// a local variable (or parameter) that lives in memory because its address is taken
+		if c.fr == nil {
+			return Addr{}, nil, false
+		}
+		if _, shadow := c.bound[x.Name]; shadow {
+			return Addr{}, nil, false
+		}
+		for _, b := range c.fr.fn.Blocks {
+			for _, in := range b.Instrs {
+				al, ok := in.(*ssa.Alloc)
+				if !ok || al.Comment != x.Name {
+					continue
+				}
+				v, ok := c.fr.vals[al]
+				if !ok {
+					continue
+				}
+				pv := e.asPtr(v, al.Type())
+				return pv.A, al.Type().Underlying().(*types.Pointer).Elem(), true
+			}
+		}
+		return Addr{}, nil, false
 	case CSel:
 		if id, ok := x.X.(CIdent); ok {
 			if _, shadow := c.bound[id.Name]; !shadow && !c.isValueName(id.Name) && c.importedPkg(id.Name) != nil {
